@@ -332,8 +332,14 @@ impl G<'_> {
             3 => -1,
             4 => *self.r.pick(&[
                 i64::MIN + 1,
+                i64::MAX - 1,
                 -(1 << 53),
                 1 << 53,
+                (1 << 53) + 1,
+                -(1 << 53) - 1,
+                (1 << 62) + 1,
+                -(1 << 62) - 3,
+                123_456_789_012_345_679,
                 -(1 << 31),
                 1 << 31,
                 (1 << 32) - 1,
